@@ -39,15 +39,26 @@ def sh(cmd, timeout=600, cwd=None, env=None, input=None):
 
 
 class CoqLock:
+    """Exclusive lock on the shared Coq build tree (generated anchors + .vo files).  Re-entrant within a process: main.py holds it
+    for a whole check run so that concurrent checks (e.g. one against /repo and one against a scratch tree) never mix anchors,
+    compiled models and correspondence evaluations."""
+    _depth = 0
+    _file = None
+
     def __enter__(self):
-        os.makedirs(WORKROOT, exist_ok=True)
-        self.f = open(os.path.join(WORKROOT, "coq.lock"), "w")
-        fcntl.flock(self.f, fcntl.LOCK_EX)
+        if CoqLock._depth == 0:
+            os.makedirs(WORKROOT, exist_ok=True)
+            CoqLock._file = open(os.path.join(WORKROOT, "coq.lock"), "w")
+            fcntl.flock(CoqLock._file, fcntl.LOCK_EX)
+        CoqLock._depth += 1
         return self
 
     def __exit__(self, *a):
-        fcntl.flock(self.f, fcntl.LOCK_UN)
-        self.f.close()
+        CoqLock._depth -= 1
+        if CoqLock._depth == 0:
+            fcntl.flock(CoqLock._file, fcntl.LOCK_UN)
+            CoqLock._file.close()
+            CoqLock._file = None
 
 
 def write_if_changed(path, text):
@@ -236,6 +247,8 @@ class Check:
             self.broken.append({"kind": "anchor-translation", "name": e.split(":")[0], "detail": e})
             self.log("ANCHOR BROKEN", e)
         text = anchors.render(pid)
+        self._anchor_texts = getattr(self, "_anchor_texts", {})
+        self._anchor_texts[pid] = text
         with CoqLock():
             write_if_changed(os.path.join(GEN, f"Anchors_{pid}.v"), text)
         return not anchors.errors
@@ -257,6 +270,10 @@ class Check:
         self.checker_cmd = (f"make -C {COQ} -k {' '.join(targets)}  (coq_makefile project, full .vo build, coqc 8.16.1); "
                             f"then coqc on each Property.v to capture Print Assumptions")
         with CoqLock():
+            # another check (possibly against another tree) may have regenerated the same anchor files since write_anchors:
+            # put this run's anchors back before building, under the same lock as the build
+            for apid, atext in getattr(self, "_anchor_texts", {}).items():
+                write_if_changed(os.path.join(GEN, f"Anchors_{apid}.v"), atext)
             regen_makefile()
             rc, out, dt = sh(["make", "-k", "-j8"] + targets, cwd=COQ, timeout=1500)
             ok = rc == 0
